@@ -242,7 +242,13 @@ class Gen(object):
             ks = self.kids(p)
             non = [c for c in E + T if c not in ks]
             for ref in some(non):
-                for n in some([n for n in E + T if self.movable(p, n) and n != ref]):
+                cn = [n for n in E + T if self.movable(p, n) and n != ref]
+                if pick_all:
+                    # the new child: one that hangs elsewhere, one child of p, one detached node
+                    att = [n for n in cn if self.w.nodes[n].parentNode is not None and n not in ks]
+                    det = [n for n in cn if self.w.nodes[n].parentNode is None]
+                    cn = att[:1] + [n for n in cn if n in ks][:1] + det[:1]
+                for n in some(cn):
                     out.append(('insertBefore:notachild', ['insb', p, n, ref]))
             for c in some([c for c in non if c not in self.w.roots]):
                 out.append(('removeChild:notachild', ['rm', p, c]))
@@ -265,14 +271,18 @@ class History(object):
         self.failed = None
         self.raised = 0; self.labels = []
 
-    def do(self, op, label=None):
+    def do(self, op, label=None, bracket=True):
         w = self.w
-        before = deep_snapshot(w, self.g.style_names)
+        if bracket:
+            before = deep_snapshot(w, self.g.style_names)
         line = w.line(op)
         ans = w.apply(op)
         self.ops.append(op); self.lines.append(line); self.impl.append(ans)
         self.lines.append('snap'); self.impl.append(w.snapshot())
-        if ans != 'ok':
+        if ans != 'ok' and not bracket:
+            if self.failed is None:
+                self.failed = ('setup-call-refused', len(self.ops) - 1, '%s raised %s' % (op, ans))
+        elif ans != 'ok':
             self.raised += 1
             after = deep_snapshot(w, self.g.style_names)
             # nodes that did not exist before the call are not part of "the document as it was"
@@ -374,7 +384,7 @@ def run(chk, replay=None):
         attached = (s % 2 == 0)
         h = History(chk, attached, rng)
         for op in h.g.prologue():
-            h.do(op)
+            h.do(op, bracket=False)
         n = rng.randint(3, 14)
         for _ in range(n):
             if rng.random() < 0.4:
@@ -400,7 +410,7 @@ def run(chk, replay=None):
         if h.failed:
             report(chk, h)
     # ---- systematic: every designed-to-fail call in every state of short histories
-    depth = 3 if thorough else 2
+    depth = 2 if thorough else 1
     nstates = 0
     for attached in (True, False):
         seen = set()
@@ -411,7 +421,7 @@ def run(chk, replay=None):
                 base = History(chk, attached, rng)
                 pro = base.g.prologue()
                 for op in pro + path:
-                    base.do(op)
+                    base.do(op, bracket=False)
                 key = base.w.snapshot()
                 if key in seen:
                     continue
@@ -423,7 +433,7 @@ def run(chk, replay=None):
                     h.g.style_names = set(base.g.style_names)
                     h.g.fname = dict(base.g.fname)
                     for o in pro + path:
-                        h.do(o)
+                        h.do(o, bracket=False)
                     if op[0] == 'ctor':
                         h.g.fname[op[1]] = op[2]
                     ans = h.do(op, label)
